@@ -14,6 +14,7 @@ package main
 
 import (
 	"bytes"
+	"encoding/hex"
 	"fmt"
 	"math/rand"
 	"os"
@@ -48,6 +49,17 @@ type checker struct {
 	scratch string
 	mu      sync.Mutex
 	roots   map[string][32]byte // root -> content digest (f)
+	prefix  [257]int64          // how many adjacent key pairs of the random universes share exactly L leading bits
+}
+
+func (ck *checker) notePrefixes(keys []tl.Key) {
+	ks := append([]tl.Key(nil), keys...)
+	tl.SortKeys(ks)
+	ck.mu.Lock()
+	for i := 0; i+1 < len(ks); i++ {
+		ck.prefix[tl.CommonPrefix(ks[i], ks[i+1])]++
+	}
+	ck.mu.Unlock()
 }
 
 func (ck *checker) noteRoot(part string, root []byte, m tl.Model, rc func() replayCase) {
@@ -425,6 +437,7 @@ func (ck *checker) random() {
 		tk := tasks[i]
 		r := c.Rand(tk.id)
 		uni := tl.Universe(r, tk.s.nKeys)
+		ck.notePrefixes(uni)
 		hist := tl.GenHistory(r, uni, tk.s.nBatches, tk.s.maxBatch)
 		var probes []tl.Key
 		for n := 0; n < 6 && n < len(uni); n++ {
@@ -544,9 +557,10 @@ func (ck *checker) replay() {
 	var probes []tl.Key
 	for _, p := range rc.Probes {
 		var k tl.Key
-		fmt.Sscanf(p, "%x", &k)
-		b := []byte{}
-		fmt.Sscanf(p, "%x", &b)
+		b, err := hex.DecodeString(p)
+		if err != nil || len(b) != 32 {
+			continue
+		}
 		copy(k[:], b)
 		probes = append(probes, k)
 	}
@@ -680,6 +694,17 @@ func main() {
 	pprof.StopCPUProfile()
 	ck.mu.Lock()
 	c.Set("distinct_roots_seen", len(ck.roots))
+	covered, missing, mod := 0, []int{}, map[string]int64{}
+	for L := 0; L < 256; L++ {
+		if ck.prefix[L] > 0 {
+			covered++
+		} else {
+			missing = append(missing, L)
+		}
+		mod[fmt.Sprintf("L%%4==%d", L%4)] += ck.prefix[L]
+	}
+	c.Set("random_universes_adjacent_common_prefix", map[string]interface{}{"lengths_covered_of_256": covered, "lengths_missing": missing,
+		"pairs_by_L_mod_4": mod, "pairs_L_252_to_255": ck.prefix[252] + ck.prefix[253] + ck.prefix[254] + ck.prefix[255]})
 	ck.mu.Unlock()
 	c.Finish("model equivalence of Get on live/reopened/old roots + root equality with single-batch fresh build and alternative histories, after every committed batch",
 		c.Pick(50000, 500000),
